@@ -8,9 +8,16 @@
    Part 4: the theorems [C03_once], [C03_transparent], [C03_transparent_subset], [C03_deterministic].
    Part 5: decidable checks ([lr_free_check], [lr_free_auto]) and examples. *)
 From Coq Require Import String List NArith ZArith Bool Arith Lia Permutation.
-From Parsley Require Import Obs Base Grammar Engine EngineFacts SetMapFacts EngineHarness.
+From Parsley Require Import Obs Base Grammar Engine TermFacts EngineFacts SetMapFacts EngineHarness.
 Import ListNotations.
 Open Scope N_scope.
+
+(* TermFacts (through ReaderProofs: ZifyN and a [zify_post_hook]) switches [lia] to the euclidean-division
+   preprocessing, which generalises over every section variable in sight: lemmas proved by [lia] inside a
+   section would silently get extra arguments ([lrc_below_le rk rrk cons ..] instead of [lrc_below_le rk ..]).
+   This file has no division; switch it off here and restore TermFacts' setting at the end of the file. *)
+Ltac Zify.zify_convert_to_euclidean_division_equations_flag ::= constr:(false).
+Ltac Zify.zify_post_hook ::= idtac.
 
 (* ------------------------------------------------------------------------------------- *)
 (* Part 0: definitions                                                                    *)
@@ -67,7 +74,9 @@ Fixpoint nomemo (e : pexpr) : bool :=
    expression returns ends strictly after the start.  Conservative: Empty, End, Optional and
    Single are never consuming; a sequence is consuming when an element that every emitted
    result must contain is. *)
-Definition term_consuming (t : terminal) : bool := match t with TRune _ => true end.
+(* a terminal is consuming when a match certainly moves: every rune, every literal except a user
+   regular expression that can match the empty string (TermFacts.term_strict) *)
+Definition term_consuming (t : terminal) : bool := term_strict t.
 Definition hd_ok (f : pexpr -> bool) (ps : list pexpr) : bool := match ps with p :: _ => f p | [] => false end.
 Fixpoint consuming (cons : N -> bool) (e : pexpr) : bool :=
   match e with
@@ -330,9 +339,26 @@ Qed.
 Lemma term_parse_consuming inp t pos res err n :
   term_consuming t = true -> term_parse inp t pos = (res, err) -> In n res -> pos < node_rpos n.
 Proof.
-  destruct t as [ch]. intros _ H Hin. unfold term_parse in H.
-  destruct (byte_at inp pos) as [b|]; [destruct (b =? ch)|]; inversion H; subst; try (destruct Hin; fail).
-  destruct Hin as [E|[]]. subst n. cbn [node_rpos]. lia.
+  destruct t as [ch|l].
+  - intros _ H Hin. unfold term_parse in H.
+    destruct (byte_at inp pos) as [b|]; [destruct (b =? ch)|]; inversion H; subst; try (destruct Hin; fail).
+    destruct Hin as [E|[]]. subst n. cbn [node_rpos]. lia.
+  - unfold term_consuming. cbn [term_strict]. intros Hs H Hin.
+    destruct (term_parse_cases _ _ _ _ _ H) as [->|[n0 [-> ->]]]; [destruct Hin|].
+    destruct Hin as [E|[]]. subst n0.
+    apply term_parse_lit_node in H. destruct H as (_ & tok & v & r & -> & _ & _ & _ & Hlt).
+    cbn [node_rpos]. exact (Hlt Hs).
+Qed.
+
+(* without the hypothesis: a terminal's node does not end before the position *)
+Lemma term_parse_rpos_ge inp t pos res err n :
+  term_parse inp t pos = (res, err) -> In n res -> exists tok v r, n = NTerm tok v pos r /\ pos <= r.
+Proof.
+  intros H Hin. destruct (term_parse_cases _ _ _ _ _ H) as [->|[n0 [-> ->]]]; [destruct Hin|].
+  destruct Hin as [E|[]]. subst n0. destruct t as [ch|l].
+  - apply term_parse_rune_node in H. destruct H as (_ & -> & _). do 3 eexists. split; [reflexivity|lia].
+  - apply term_parse_lit_node in H. destruct H as (_ & tok & v & r & -> & _ & Hle & _ & _).
+    exists tok, v, r. split; [reflexivity|exact Hle].
 Qed.
 
 (* combinator.Single's unwrapping *)
@@ -975,12 +1001,9 @@ Section Memo.
         split; [reflexivity|].
         split; [destruct ns; [destruct err|]; try exact Hc; (apply (cinv_same c); [reflexivity|exact Hc])|].
         split; [destruct ns; [destruct err|]; try exact Hl; (apply (log_ok_same c); [reflexivity|reflexivity|exact Hl])|].
-        assert (Hcons : forall n, In n ns -> pos < node_rpos n).
-        { intros n Hn. eapply term_parse_consuming; [|exact E|exact Hn]. destruct t; reflexivity. }
-        split; [|intros _; exact Hcons].
-        intros n Hn. specialize (Hcons n Hn). destruct t as [ch]. unfold term_parse in E.
-        destruct (byte_at inp pos) as [b0|]; [destruct (b0 =? ch)|]; inversion E; subst; try (destruct Hn; fail).
-        destruct Hn as [E'|[]]. subst n. cbn [deep_ge node_rpos]. split; [lia|exact I].
+        split; [|cbn [consuming]; intros Hcs n Hn; exact (term_parse_consuming inp t pos ns err n Hcs E Hn)].
+        intros n Hn. destruct (term_parse_rpos_ge inp t pos ns err n E Hn) as (tok & v & r & -> & Hle).
+        cbn [deep_ge node_rpos]. split; [exact Hle|exact I].
       - (* PEmpty *) cbn [parse_step] in H. inversion H; subst. split; [reflexivity|]. split; [exact Hc|]. split; [exact Hl|].
         split; [|noc]. intros n [E|[]]. subst n. cbn [deep_ge node_rpos]. split; [lia|exact I].
       - (* PEnd *) cbn [parse_step] in H. destruct (is_eof inp pos); inversion H; subst; (split; [reflexivity|]).
@@ -1762,7 +1785,7 @@ Definition sq (ps : list pexpr) : pexpr := PSeq SeqOf INone false None ps.
 
 (* (1) right recursion: P -> a P | b *)
 Definition ex1_rules : list pexpr := [PMemo 1 (PAny [sq [PTerm (TRune ch_a); PRef 0]; PTerm (TRune ch_b)])].
-Definition ex1_inp : input := {| i_data := [97; 97; 97; 98]; i_offset := 1 |}.
+Definition ex1_inp : input := mk_input [97; 97; 97; 98] 1.
 Example ex1_lr_free : lr_free ex1_rules (PRef 0).
 Proof. apply (lr_free_check_sound (fun _ => 0) (fun _ => 0) (fun _ => false)). vm_compute. reflexivity. Qed.
 Example ex1_auto : lr_free_auto ex1_rules (PRef 0) = true.  Proof. vm_compute. reflexivity. Qed.
@@ -1784,7 +1807,7 @@ Definition ex2_T : pexpr :=
 Definition ex2_D : pexpr := PMemo 13 (PSeq (SMany false) IArray false None [PMemo 14 (PTerm (TRune ch_d))]).
 Definition ex2_rules : list pexpr := [ex2_E; ex2_T; ex2_D].
 Definition ex2_rk (i : N) : N := if i =? 10 then 0 else if i =? 11 then 1 else if i =? 12 then 1 else if i =? 13 then 2 else 3.
-Definition ex2_inp : input := {| i_data := [100; 43; 40; 100; 100; 45; 100; 41; 43; 100]; i_offset := 1 |}.   (* d+(dd-d)+d *)
+Definition ex2_inp : input := mk_input [100; 43; 40; 100; 100; 45; 100; 41; 43; 100] 1.   (* d+(dd-d)+d *)
 Example ex2_lr_free : lr_free ex2_rules (sentence (PRef 0)).
 Proof. apply (lr_free_check_sound ex2_rk (fun k => k) (fun _ => false)). vm_compute. reflexivity. Qed.
 Example ex2_auto : lr_free_auto ex2_rules (sentence (PRef 0)) = true.  Proof. vm_compute. reflexivity. Qed.
@@ -1805,7 +1828,7 @@ Proof.
 Qed.
 Example ex3_auto : lr_free_auto ex3_rules (PRef 0) = false.  Proof. vm_compute. reflexivity. Qed.
 (* ... and it must be: on "abb" the memoised body of P runs several times at position 1 *)
-Definition ex3_inp : input := {| i_data := [97; 98; 98]; i_offset := 1 |}.
+Definition ex3_inp : input := mk_input [97; 98; 98] 1.
 Fixpoint nodup_NN (l : list (N * N)) : bool :=
   match l with
   | [] => true
@@ -1839,7 +1862,7 @@ Definition ex4_rules : list pexpr := [PMemo 1 (PAny [sq [PTerm (TRune ch_a); PTe
 Definition ex4_X : pexpr := PAny [sq [PTerm (TRune ch_a); PTerm (TRune 120)]; PTerm (TRune ch_a)].
 Definition ex4_root : pexpr :=
   PAny [sq [PRef 0; PTerm (TRune 113)]; sq [ex4_X; PTerm (TRune 113)]; sq [PRef 0; PTerm (TRune 113)]].
-Definition ex4_inp : input := {| i_data := [97; 99]; i_offset := 1 |}.
+Definition ex4_inp : input := mk_input [97; 99] 1.
 Example ex4_lr_free : lr_free ex4_rules ex4_root.
 Proof. apply lr_free_auto_sound. vm_compute. reflexivity. Qed.
 Example ex4_message_differs : exists ns cp err c ns' cp' err' c',
@@ -1859,7 +1882,7 @@ Qed.
 Definition ex5_rules : list pexpr :=
   [PMemo 1 (PAny [sq [PRef 1; PRef 0]; PRef 1]);
    PMemo 2 (PAny [PTerm (TRune ch_a); sq [PTerm (TRune ch_lp); PRef 0; PTerm (TRune ch_rp)]])].
-Definition ex5_inp : input := {| i_data := [97; 40; 97; 97; 41; 97]; i_offset := 1 |}.      (* a(aa)a *)
+Definition ex5_inp : input := mk_input [97; 40; 97; 97; 41; 97] 1.      (* a(aa)a *)
 Example ex5_auto : lr_free_auto ex5_rules (sentence (PRef 0)) = true.  Proof. vm_compute. reflexivity. Qed.
 Example ex5_lr_free : lr_free ex5_rules (sentence (PRef 0)).
 Proof. apply lr_free_auto_sound. exact ex5_auto. Qed.
@@ -1877,3 +1900,43 @@ Example ex5b_auto : lr_free_auto ex5b_rules (sentence (PRef 1)) = true.  Proof. 
 Definition ex6_rules : list pexpr :=
   [PMemo 1 (sq [POpt (PTerm (TRune ch_b)); PRef 1; PTerm (TRune 99)]); PMemo 2 (PAny [PRef 0; PTerm (TRune ch_d)])].
 Example ex6_auto : lr_free_auto ex6_rules (PRef 0) = false.  Proof. vm_compute. reflexivity. Qed.
+
+(* (7) literal terminals and trimming:  V -> Integer | '[' V ']'   with Spaces skipped before each element
+   (the brackets are terminal.Rune literals, not [TRune]); a literal counts as consuming because it is
+   [term_strict].  On "[ [42 ] ]" the memoised and the stripped run return the same single node. *)
+Definition ex7_lt (p : pexpr) : pexpr := PLeftTrim WsSpaces p.
+Definition ex7_rules : list pexpr :=
+  [PMemo 1 (PChoice [PTerm (TLit LInteger);
+                     PSeq SeqOf IArray false None
+                          [ex7_lt (PTerm (TLit (LRune 91))); ex7_lt (PRef 0); ex7_lt (PTerm (TLit (LRune 93)))]])].
+Definition ex7_inp : input := mk_input [91; 32; 91; 52; 50; 32; 93; 32; 93] 1.      (* [ [42 ] ] *)
+Example ex7_auto : lr_free_auto ex7_rules (PRef 0) = true.  Proof. vm_compute. reflexivity. Qed.
+Example ex7_lr_free : lr_free ex7_rules (PRef 0).
+Proof. apply lr_free_auto_sound. exact ex7_auto. Qed.
+Example ex7_runs : exists n c c',
+  run ex7_inp ex7_rules 100 (PRef 0) = Ok ([n], [], None, c) /\
+  run ex7_inp (map strip_memo ex7_rules) 100 (strip_memo (PRef 0)) = Ok ([n], [], None, c') /\
+  node_pos n = 1 /\ node_rpos n = 10 /\ length (g_bodies c) = 3%nat /\
+  n = NNonTerm [83; 69; 81] IArray
+        [NTerm [91] (VChar 91) 1 2;
+         NNonTerm [83; 69; 81] IArray
+           [NTerm [91] (VChar 91) 3 4; NTerm [73; 78; 84; 69; 71; 69; 82] (VInt 42) 4 6; NTerm [93] (VChar 93) 7 8] 3 8;
+         NTerm [93] (VChar 93) 9 10] 1 10.
+Proof. do 3 eexists. vm_compute. repeat split; reflexivity. Qed.
+(* the theorem applied to this grammar (its hypotheses are the two runs above) *)
+Example ex7_transparent ns cp err c ns' cp' err' c' :
+  run ex7_inp ex7_rules 100 (PRef 0) = Ok (ns, cp, err, c) ->
+  run ex7_inp (map strip_memo ex7_rules) 100 (strip_memo (PRef 0)) = Ok (ns', cp', err', c') ->
+  ns = ns' /\ err = err' /\ option_map epos (cerr c) = option_map epos (cerr c').
+Proof. apply C03_transparent. exact ex7_lr_free. Qed.
+(* a user expression that can match the empty string is NOT consuming: P -> /a*/ P is rejected
+   (with /a+/ it is accepted) *)
+Definition ex8_rules (re : Regex.regex) : list pexpr := [PMemo 1 (sq [PTerm (TLit (LRegexp re 0)); PRef 0])].
+Example ex8_star_auto : lr_free_auto (ex8_rules (Regex.RStar (Regex.RClass false [(97, 97)]))) (PRef 0) = false.
+Proof. vm_compute. reflexivity. Qed.
+Example ex8_plus_auto : lr_free_auto (ex8_rules (Regex.RPlus (Regex.RClass false [(97, 97)]))) (PRef 0) = true.
+Proof. vm_compute. reflexivity. Qed.
+
+(* restore the [lia] preprocessing of TermFacts/ReaderProofs (see the top of the file) *)
+Ltac Zify.zify_convert_to_euclidean_division_equations_flag ::= constr:(true).
+Ltac Zify.zify_post_hook ::= Z.to_euclidean_division_equations.
